@@ -211,6 +211,11 @@ class CodecScenario:
             if name in mod.constants and isinstance(mod.constants[name], (ast.Dict, ast.Set, ast.Tuple, ast.List)):
                 # table constants are evaluated in this world (so that NoneType etc. are the model's records)
                 return self.ri.interp.eval(mod.constants[name], st)
+            if name in mod.constants or name in mod.imports:
+                from .common import follow_constant
+                far = follow_constant(self.repo, mod, name)  # an alias of / an import of a table that lives in another module of the package
+                if isinstance(far, (ast.Dict, ast.Set, ast.Tuple, ast.List)) and far is not mod.constants.get(name):
+                    return self.ri.interp.eval(far, st)
             v = base_name(name, st)
             if v is not None:
                 return v
